@@ -6,7 +6,7 @@ import random
 import re
 import subprocess
 
-from .. import runner, tree
+from .. import model, runner, tree
 from ..core import JobResult, job_seed
 
 LEVEL = "fault_enumeration"
@@ -158,8 +158,9 @@ def job_eacces(res, rng, sc, w, job):
         bad, good = top[0], top[1]
         os.chmod(bad.abs, 0)
         try:
-            for q, with_good in (("path from 't/%s', 't/%s' into list" % (bad.rel, good.rel), True), ("path from 't/%s', 't/%s' into list" % (good.rel, bad.rel), True),
-                                 ("path from 't/%s' dfs into list" % bad.rel, False)):
+            qb, qg = model.quote_lit("t/" + bad.rel), model.quote_lit("t/" + good.rel)
+            for q, with_good in (("path from %s, %s into list" % (qb, qg), True), ("path from %s, %s into list" % (qg, qb), True),
+                                 ("path from %s dfs into list" % qb, False)):
                 r = runner.run([q], cwd=w, home=home, uid=NOBODY)
                 res.ev()
                 ctx = {"query": q, "unlistable_root": bad.rel, "result": r.brief()}
